@@ -41,7 +41,7 @@ const OBF_METHODS: &[&str] = &["a", "b", "m", "<init>", "a$b", "é"];
 const ORIG_METHODS: &[&str] = &["run", "call", "<init>", "lambda$x$0", "get", "é", "doWork"];
 const TYPES: &[&str] = &["void", "int", "java.lang.String", "int[]", "p.Q$R", "é"];
 const ARGS: &[&str] = &["", "int", "int,long", "java.lang.String", "p.Q[],int", "é", "p.Q$R,java.lang.String", "p.Q,int", "p.Q$R"];
-const FILES: &[&str] = &["Foo.kt", "Bar.java", "R8$$SyntheticClass", "é.kt", "a b.kt"];
+const FILES: &[&str] = &["Foo.kt", "Bar.java", "R8$$SyntheticClass", "é.kt", "a b.kt", "app/src/main/kotlin/Main.kt", "/abs/X.java", "dir\\Win.kt"];
 
 pub fn line_number(rng: &mut Rng, wild: bool) -> u128 {
     match rng.below(if wild { 14 } else { 10 }) {
